@@ -385,6 +385,18 @@ def match_payloads(db, pgn, rnd, n_random):
                             m = ((1 << f2["BitLength"]) - 1) << f2["BitOffset"]
                             x = (x & ~m) | ((alt if f2 is f else f2["Match"]) << f2["BitOffset"])
                     out.append(x)
+    # bit-exact: every single bit of every match field flipped, and the bit just outside on either side, other match fields as the definition wants them
+    for p in g:
+        base = rnd.getrandbits(tb)
+        for f in p["Fields"]:
+            if "Match" in f and "BitOffset" in f:
+                m = ((1 << f["BitLength"]) - 1) << f["BitOffset"]
+                base = (base & ~m) | (f["Match"] << f["BitOffset"])
+        for f in p["Fields"]:
+            if "Match" in f and "BitOffset" in f:
+                lo, hi = f["BitOffset"], f["BitOffset"] + f["BitLength"]
+                for b in list(range(lo, hi)) + ([lo - 1] if lo > 0 else []) + [hi]:
+                    out.append(base ^ (1 << b))
     for _ in range(n_random):
         x = rnd.getrandbits(tb)
         for (o, n), vals in positions.items():
@@ -430,6 +442,10 @@ def oracle_check(db, sfx, p, fn, x):
                 exp.append(("num", val, ok, z))
         elif t == "LOOKUP":
             exp.append(("lookup", bits, enums.get(f.get("LookupEnumeration"), {}).get(bits)))
+        elif t == "BITLOOKUP":
+            # the names of the set bits, in bit order (bits without a name are skipped), from the database's own table
+            tbl = next(({it["Bit"]: it["Name"] for it in e["EnumBitValues"]} for e in db.db["LookupBitEnumerations"] if e["Name"] == f.get("LookupBitEnumeration")), {})
+            exp.append(("bitlookup", bits, ", ".join(tbl[b] for b in range(n) if (bits >> b) & 1 and b in tbl)))
         elif t in ("RESERVED", "SPARE"):
             exp.append(("raw", bits))
         else:
@@ -473,6 +489,9 @@ def oracle_check(db, sfx, p, fn, x):
                 return (f"C01/offset-ignored/{p['PGN']}.{f['Id']}", f"{sfx} field {f['Id']}: raw {e[3]} reported as {got!r}, database (with Offset {f['Offset']}) says {float(val)}")
             if abs(frac(got) - val) > abs(val) / 2 ** 48:
                 return (f"C01/value/{p['PGN']}.{f['Id']}", f"{sfx} field {f['Id']}: raw {e[3]} reported as {got!r}, database says {float(val)}")
+        elif e[0] == "bitlookup":
+            if mf.value != e[2] and not (e[1] == 0 and mf.value in ("", None)):
+                return (f"C01/bitlookup/{p['PGN']}.{f['Id']}", f"{sfx} field {f['Id']}: bits {e[1]:#x} reported as {mf.value!r}, the database's table says {e[2]!r}")
         elif e[0] == "lookup":
             if mf.raw_value != e[1] or mf.value != e[2]:
                 return (f"C01/lookup/{p['PGN']}.{f['Id']}", f"{sfx} field {f['Id']}: bits {e[1]} reported as {mf.value!r}/{mf.raw_value!r}, database says {e[2]!r}")
@@ -556,6 +575,9 @@ def mutate_values(f, dbf, rnd):
             out.append((lab, raw * res + ofs, None))
         step = res
         out.append(("between", (top // 3) * res + ofs + step * 0.4, None))
+        if isinstance(res, int) and res > 1 and isinstance(ofs, int):
+            out.append(("between-int-up", (top // 3) * res + ofs + (res * 3) // 4, None))       # an int between two steps, nearer to the upper one
+            out.append(("between-int-down", (top // 3) * res + ofs + res // 4, None))
         out.append(("between-half", (top // 3) * res + ofs + step * 0.5, None))
         out.append(("absent", None, None))
         out.append(("nan", float("nan"), None))
